@@ -6,9 +6,10 @@ import os
 
 import lib_cbm as L
 from core import LeanDriver, err_kind, canon, sha, CORPUS_DIR
+from gen import cbmcfg
 
 ID = "C14"
-GENERATORS = []
+GENERATORS = [cbmcfg.generate]
 LEAN_MODULES = ["FimVerif.Proofs.C14"]
 P = "FimVerif.C14."
 THEOREMS = [P + t for t in (
@@ -22,32 +23,45 @@ THEOREMS = [P + t for t in (
     # unmerge
     "unmerge_removes_exactly", "unmerge_any_merged", "unmerge_never_merged_noop", "unmerge_inverse", "unmerge_inverse_reachable",
     "unmerge_total_on_reachable", "unmerge_inverse_counterexample_edge", "unmerge_inverse_counterexample_id",
-    # rollback, sources, store
-    "rollback_restores", "merge_sources_untouched", "merge_iteration_order_irrelevant", "merge_on_networkx_store")] + [
+    # rollback, sources (frame on the store), tie to the source
+    "rollback_restores", "merge_does_not_alter_other_graphs", "sources_untouched_by_every_history", "merge_sources_untouched",
+    "merge_iteration_order_irrelevant", "merge_on_networkx_store", "plans_are_the_modelled_ones", "tables_agree_with_model",
+    "generated_plans_safe")] + [
     "FimVerif.Cbm.merge_step", "FimVerif.Cbm.merge_WF", "FimVerif.Cbm.unmerge_merge", "FimVerif.Cbm.unmerge_step",
-    "FimVerif.Cbm.Tracks.merge", "FimVerif.Cbm.Tracks.unmerge", "FimVerif.Cbm.WInv.step", "FimVerif.Cbm.mergeN_succeeds_iff"]
+    "FimVerif.Cbm.Tracks.merge", "FimVerif.Cbm.Tracks.unmerge", "FimVerif.Cbm.WInv.step", "FimVerif.Cbm.mergeN_succeeds_iff",
+    "FimVerif.Cbm.mergeAdm_frame", "FimVerif.Cbm.unmergeAdm_frame", "FimVerif.Cbm.srun_frame"]
 TRUSTED_BASE = [
-    "Model/Cbm.lean mirrors merge_adm / unmerge_adm / _update_node_delegations / rewrite_delegations / snapshot / rollback at the "
-    "level of the abstract graph interface (nodes keyed by NodeID, undirected edges between NodeIDs); checked differentially on "
-    "every run, including the states left behind by calls that raise",
-    "nx.contracted_nodes + the shared store's internal integer ids are summarised by their net effect (edges of the contracted "
-    "node move to the CBM node, an existing edge keeps its data); clone_graph/extract_graph/add_graph are taken as exact copies "
-    "(C04/C05's subject)",
-    "delegation details and all other property values are opaque strings in the model; Delegations.from_json/to_json is applied "
+    "Model/Cbm.lean (abstract model, subject of the algebraic theorems) mirrors merge_adm / unmerge_adm / _update_node_delegations / "
+    "rewrite_delegations / snapshot / rollback at the level of the abstract graph interface (nodes keyed by NodeID, undirected edges "
+    "between NodeIDs), including the states left behind by calls that raise",
+    "Model/CbmStore.lean (model of the shared NetworkX store: internal keys, GraphID tags, clone / contracted_nodes / GraphID rewrite; "
+    "subject of the frame theorems) interprets the plans gen/cbmcfg.py observes on the code (which interface calls, on which graph "
+    "object, in which order) - theorem plans_are_the_modelled_ones ties them to the abstract model, tables_agree_with_model ties the "
+    "decision functions to the observed decision tables; that the store interpreter computes what the abstract model computes is "
+    "checked by the driver on every request (`agree`), not proved",
+    "the correspondence compares the real methods (Neo4jCBMGraph's, run on the NetworkX shared store through harness/lib_cbm.py NXCBM) "
+    "with the store interpreter step by step: result / error kind, canonical combined model, sources untouched",
+    "nx.contracted_nodes is summarised by its net effect (edges of the contracted node move to the surviving node, an existing edge "
+    "keeps its data); clone_graph/extract_graph/add_graph are taken as exact copies under fresh internal ids (C04/C05's subject)",
+    "delegation details and all other property values are opaque strings in the models; Delegations.from_json/to_json is applied "
     "to the inputs by the harness first (C12's subject)",
-    "harness/lib_cbm.py: NXCBM borrows the Neo4jCBMGraph methods and runs them on the NetworkX shared store",
     "the iteration order of Python's set of common node ids is reproduced by the harness and handed to the driver (it only "
     "matters for the state left by a merge that raises; theorem merge_iteration_order_irrelevant covers the successful case)",
-    "merge_sources_untouched holds by construction of the functional model; the clause is carried by the oracle (source snapshots "
-    "compared after every step) and by C04's frame theorem",
+    "translator probes are behavioural (recorded interface calls and observed results on small probe graphs), so they see what the "
+    "probes exercise; everything else is left to the correspondence",
 ]
 ASSUMPTIONS = [
     "the CBM is only built through merge_adm / unmerge_adm / snapshot / rollback starting from an empty graph (every CBM node "
     "carries StructuralInfo.adm_graph_ids)",
-    "NodeIDs are unique within one model and a model has at most one edge per unordered node pair (nx.Graph)",
+    "NodeIDs are unique within one model and a model has at most one edge per unordered node pair (nx.Graph); internal node ids of "
+    "the store are unique and below start_id (KeysOK; preserved by every primitive, theorem srun_frame)",
+    "histories within the property's quantifier (HistOk): a merge names a well-formed model that is not currently part of the "
+    "combined model (re-merging a live model duplicates its provenance entry: theorem remerge_counterexample) and does not raise "
+    "half-way; unmerge of any id, snapshots and rollbacks are unrestricted",
     "a PropertyGraphQueryException raised by the final GraphID rewrite when every node of the merged model was already in the CBM "
-    "is an artefact of running the Neo4j-side code on the NetworkX store (update_nodes_property on a vanished graph); the merged "
-    "state is checked all the same",
+    "is an artefact of running the Neo4j-side code on the NetworkX store (update_nodes_property on a vanished graph); theorem "
+    "merge_on_networkx_store: the merged state is the same, and the theorems are stated for the call without the artefact",
+    "graph ids of temporary graphs and snapshots (uuid4 in the code) differ from the ids of all other graphs",
 ]
 RULE = ("families of 1..4 generated site/network models sharing stitch nodes (plus small arbitrary models over a 5-id pool, the four "
         "repo advertisements and a malformed stream), all merge permutations, random merge/unmerge/snapshot/rollback histories; "
@@ -104,6 +118,17 @@ class Session:
             r = err_kind(e)
         return {"r": r, "cbm": L.snapshot(self.imp, CBM), "val": val}
 
+    def do_corr(self, op):
+        """`do` plus what the driver reports besides the combined model: are the source models untouched"""
+        r = self.do(op)
+        r["src"] = not self.sources_changed()
+        r["agree"] = True
+        # graphs in the store that are neither the combined model, nor a source, nor a snapshot (temporary clones left behind)
+        known = {CBM} | {sp["id"] for sp in self.family} | set(self.snaps)
+        G = self.imp.storage.get_graph(CBM)
+        r["stray"] = len({d.get(L.GRAPH_ID) for _, d in G.nodes(data=True)} - known)
+        return r
+
     def sources_changed(self):
         return [s["id"] for s, s0 in zip(self.family, self.src0) if L.snapshot(self.imp, s["id"]) != s0]
 
@@ -116,7 +141,7 @@ def canon_model_reply(line):
     g = v["cbm"]
     nodes = sorted(g["nodes"], key=lambda r: r[0])
     edges = sorted(([min(e[0], e[1]), max(e[0], e[1]), e[2]] for e in g["edges"]), key=lambda r: (r[0], r[1]))
-    return {"r": v["r"], "cbm": {"nodes": nodes, "edges": edges}, "val": v["val"]}
+    return {"r": v["r"], "cbm": {"nodes": nodes, "edges": edges}, "val": v["val"], "src": v.get("src"), "agree": v.get("agree"), "stray": v.get("stray")}
 
 
 # --------------------------------------------------------------------------
@@ -167,6 +192,8 @@ def gen_cases(ctx, tag, nfam, nhist, with_ads=True, ads_perms=True):
     cases = []
     for c in corpus_cases():
         cases.append((c["family"], [tuple(o) for o in c["ops"]]))
+    for _name, fam, ops in L.corner_cases():
+        cases.append((fam, ops))
     # permutation families
     for i in range(nfam):
         k = 1 + i % 4
@@ -215,15 +242,20 @@ def correspondence(ctx, res):
     for ci, (family, ops) in enumerate(cases):
         s = Session(family)
         lines.append(json.dumps(["reset"]))
-        impl.append({"r": "ok", "cbm": {"nodes": [], "edges": []}, "val": None})
+        impl.append({"r": "ok", "cbm": {"nodes": [], "edges": []}, "val": None, "src": True, "agree": True, "stray": 0})
         meta.append((ci, "reset"))
         for op in ops:
-            lines.append(json.dumps(s.request(op)))
-            r = s.do(op)
+            req = s.request(op)
+            if op[0] == "merge" and len(req[2]) >= 2:
+                store_order = [i for i in s.cbm_ids() if i in set(req[2])]
+                res.count("case:merge:set-order-%s-store-order" % ("equals" if store_order == req[2] else "differs-from"))
+            lines.append(json.dumps(req))
+            r = s.do_corr(op)
             impl.append(r)
             meta.append((ci, op))
             res.count("op:" + op[0])
             res.count("result:" + op[0] + ":" + r["r"])
+        L.describe(res.count, family, ops)
         if nontrivial(family, ops):
             res.nontrivial.add(canon([family, ops]))
     L.fresh_store()
@@ -232,6 +264,8 @@ def correspondence(ctx, res):
     for (ci, op), i, m in zip(meta, impl, model):
         res.evaluations += 1
         mm = canon_model_reply(m)
+        if isinstance(mm, dict) and mm.get("agree") is False:
+            res.count("store-interpreter-vs-abstract-model:differ")
         if mm != i and ci not in bad_case:
             bad_case.add(ci)
             family, ops = cases[ci]
@@ -369,6 +403,33 @@ def check_unmerge_step(res, case, before, g, family, merged_after, x):
             observed={"missing": [sorted(x) for x in set(want) - set(rest)][:5], "extra": [sorted(x) for x in set(rest) - set(want)][:5]})
 
 
+def check_remerge(res, case, before, g, spec):
+    mine = {n[0] for n in spec["nodes"]}
+    b = {n[0]: n for n in before["nodes"]}
+    dup = []
+    for n in g["nodes"]:
+        o = b.get(n[0])
+        if o is None or [n[1], n[3] or None, n[4] or None] != [o[1], o[3] or None, o[4] or None]:
+            res.violation("C14:remerge:changes-combined-model", "merging a model that is already part of the combined model changed an "
+                          "element beyond its provenance", case, observed=[n[0]])
+            return
+        if n[2] != o[2]:
+            if n[0] in mine and n[2] == (o[2] or []) + [spec["id"]]:
+                dup.append(n[0])
+            else:
+                res.violation("C14:remerge:provenance", "merging a model again changed the provenance of an element in an unexpected way",
+                              case, expected=o[2], observed=[n[0], n[2]])
+                return
+    if len(g["nodes"]) != len(before["nodes"]) or g["edges"] != before["edges"]:
+        res.violation("C14:remerge:changes-combined-model", "merging a model that is already part of the combined model changed its "
+                      "elements or connections", case)
+        return
+    if dup:
+        res.violation("C14:remerge:provenance-lists-model-twice",
+                      "merging a model that is already part of the combined model lists it twice in adm_graph_ids; one unmerge then "
+                      "leaves its elements behind", case, observed=sorted(dup)[:5])
+
+
 def is_artefact(r, before, spec):
     """query error of the final GraphID rewrite when every node of the model was already in the CBM (and nothing conflicted)."""
     return (r["r"] == "query" and {n[0] for n in spec["nodes"]} <= {n[0] for n in before["nodes"]} and before["nodes"]
@@ -404,7 +465,10 @@ def run_history(res, family, ops):
                     check_global(res, case, g, family, merged, "merge")
                     check_merge_step(res, case, before, g, family[i])
                 elif okish:
-                    merged = None       # same model merged twice: outside the property's quantifier
+                    # the same model merged again while it is part of the combined model: nothing but the provenance may
+                    # change, and the provenance then lists the model twice (known finding; theorem remerge_counterexample)
+                    check_remerge(res, case, before, g, family[i])
+                    merged = None       # one unmerge will not take its elements out any more: stop tracking
                 elif i not in merged and _wellformed(family[i]) and not _has_conflict(before, family[i]):
                     bad("merge:raises:" + r["r"], "merge of a well-formed model without conflicting delegations raised", observed=r["r"])
             if not okish and g != before:
@@ -583,6 +647,7 @@ def oracle(ctx, res, nfam=None, nhist=None):
     for family, ops in gen_cases(ctx, "oracle-hist", 0, nhist, with_ads=True, ads_perms=False):
         run_history(res, family, ops)
         res.count("history")
+        L.describe(res.count, family, ops)
         if nontrivial(family, ops):
             res.nontrivial.add(canon([family, ops]))
     # 2. permutations + inverse on generated families
